@@ -60,7 +60,7 @@ func VerifC25Closure() {
 			base[i] = set
 			nodes[i] = c.Add(append([]int(nil), set...))
 		case 1:
-			deg := 1 + verifChoice(verifParam("deg"))
+			deg := 1 + verifChoice(verifParam("ideg"))
 			var ops []*FutureSet
 			for d := 0; d < deg; d++ {
 				t := verifChoice(i)
@@ -79,7 +79,7 @@ func VerifC25Closure() {
 		if kinds[i] != 0 {
 			continue
 		}
-		deg := verifChoice(verifParam("deg") + 1)
+		deg := verifChoice(verifParam("udeg") + 1)
 		for d := 0; d < deg; d++ {
 			t := verifChoice(k)
 			edges[i] = append(edges[i], t)
